@@ -122,8 +122,18 @@ def grind_collisions(rng, want_groups=3, variants=120_000):
     seen = {}
     groups = {}
     start = rng.randrange(1 << 30)
+    # the first output's script and value vary with the nonce, so that colliding transactions pay
+    # DIFFERENT script hashes / values at the same output index (a wrong candidate then shows in
+    # histories and balances, not only in the tx number)
+    out0 = 4 + 1 + 32 + 4 + 1 + 4 + 1           # offset of output 0: value(8) scriptlen(1) script(2)
+    assert raw[out0 + 8] == 2 and raw[out0 + 9] == 0x51
+
+    def outs_of(n):
+        return [(1 + n % 200, NORMAL_SCRIPTS[n % 4]), outs[1]]
     for n in range(start, start + variants):
         raw[seq_off:seq_off + 4] = struct.pack('<I', n)
+        raw[out0:out0 + 8] = struct.pack('<Q', 1 + n % 200)
+        raw[out0 + 10] = n % 4
         p = hashlib.sha256(hashlib.sha256(raw).digest()).digest()[:4]
         if p in seen:
             groups.setdefault(p, [seen[p]]).append(n)
@@ -131,7 +141,9 @@ def grind_collisions(rng, want_groups=3, variants=120_000):
             seen[p] = n
     out = []
     for p, nonces in groups.items():
-        out.append([GTx([(ZERO, MINUS_1)], outs, n) for n in nonces])
+        g = [GTx([(ZERO, MINUS_1)], outs_of(n), n) for n in nonces]
+        assert len({t.txid[:4] for t in g}) == 1
+        out.append(g)
         if len(out) >= want_groups:
             break
     return out
